@@ -145,7 +145,9 @@ CHECKS.append(dict(
          '(and get_value / database-free value) equals the hand-substituted catalog-free formula bit for bit and the reference '
          'within bounds, across histories on one formula object; every operator of prepare_operators stays inside the space, makes '
          'its documented move, and increase/decrease are inverse; catalogs may hold bare Beta / Variable / Numeric members, and '
-         'change_init_values / fix_betas / renaming through the selected member act as on the hand-written formula.',
+         'change_init_values / fix_betas / renaming through the selected member act as on the hand-written formula; two or three '
+         'formulas sharing catalog objects are explored in sequence, each against its own controller product; category labels '
+         'repeat across segmentation variables.',
     note='Trusts vlib/refsem and the documented form of segmented / alt-specific parameters; names free of ; and : and unique; at '
          'most 100 configurations where the enumerated set is used; betas given for free parameters only. Two defects found '
          'were repaired (fix: commits).',
@@ -177,7 +179,8 @@ CHECKS.append(dict(
          'complements and unbroken groups, bootstrap samples by membership, the flat frame against a re-implementation of the '
          'documented layout. Most operations see a row index with gaps; flatten_database / count_number_of_groups are also called '
          'directly on gapped frames. Columns of large (1e5..1e12, neighbours one unit apart) and tiny magnitude take part in '
-         'count / scale / remove / split / panel.',
+         'count / scale / remove / split / panel. Histories repeat earlier evaluations (same formula, rebuilt or the same object) after '
+         'later table-changing operations.',
     note='Trusts vlib.refsem (C01 tolerance), pandas/numpy for oracle bookkeeping and labels as row identity; formulas carry no '
          'shared sub-trees; identifier/panel columns are never scaled; a documented refusal ends a history; sample distributions '
          'and fold sizes are not tested; tables hold at most 32 rows. Four defects found were repaired (fix: commits).',
